@@ -61,10 +61,40 @@ func (nothingResolver) FindExtensionByNumber(protoreflect.FullName, protoreflect
 	return nil, protoregistry.NotFound
 }
 
+// schemaProto parses the schema text and derives message Reply from it: a copy of Msg under another name with two
+// fields renamed (same wire form), returned by Post, SStream and Bidi, so that a method's request and response types differ
+// (the scripted backend converts its Msg values through the wire form).
 func schemaProto() *descriptorpb.FileDescriptorProto {
 	var fdp descriptorpb.FileDescriptorProto
 	if err := prototext.Unmarshal([]byte(schemaText), &fdp); err != nil {
 		panic(err)
+	}
+	for _, m := range fdp.MessageType {
+		if m.GetName() != "Msg" {
+			continue
+		}
+		reply := proto.Clone(m).(*descriptorpb.DescriptorProto)
+		reply.Name = proto.String("Reply")
+		for _, f := range reply.Field {
+			if f.GetTypeName() == ".verif.v1.Msg.LabelsEntry" {
+				f.TypeName = proto.String(".verif.v1.Reply.LabelsEntry")
+			}
+			// same wire form, different text forms: decoding a Reply as a Msg (or the reverse) shows in JSON
+			switch f.GetName() {
+			case "name":
+				f.Name, f.JsonName = proto.String("title"), proto.String("title")
+			case "num":
+				f.Name, f.JsonName = proto.String("count"), proto.String("count")
+			}
+		}
+		fdp.MessageType = append(fdp.MessageType, reply)
+		break
+	}
+	for _, meth := range fdp.Service[0].Method {
+		switch meth.GetName() {
+		case "Post", "SStream", "Bidi":
+			meth.OutputType = proto.String(".verif.v1.Reply")
+		}
 	}
 	return &fdp
 }
